@@ -474,12 +474,11 @@ int Explore()
     }
     E.evaluations = chains.load();
     E.distinct_nontrivial = g_cases.size();
-    E.states = g_trajectories.size();
-    E.transitions = g_calls.load();
-    E.traces_validated = g_calls.load();
+    E.set("distinct_state_trajectories", (uint64_t)g_trajectories.size());
+    E.set("api_calls_compared", g_calls.load());
     E.exhaustive = !cut;
     E.set("configurations", cfg_json + "]");
-    E.rule = "per configuration: every combination of the per-period signalling patterns x every timestamp sequence of the family x {monotone, minimal-odd-timestamps}; every block of every chain queried under all query plans (warm cache in 6 orders, fresh cache, forks with a shared cache, VersionBitsCache); states = distinct (configuration, per-period state trajectory); transitions = real GetStateFor/GetStateSinceHeightFor/GetStateStatisticsFor/VersionBitsCache calls compared with the BIP9 reference; distinct_nontrivial = distinct chains whose trajectory leaves DEFINED";
+    E.rule = "per configuration: every combination of the per-period signalling patterns x every timestamp sequence of the family x {monotone, minimal-odd-timestamps}; every block of every chain queried under all query plans (warm cache in 6 orders, fresh cache, forks with a shared cache, VersionBitsCache); evaluations = chains; api_calls_compared = real GetStateFor/GetStateSinceHeightFor/GetStateStatisticsFor/VersionBitsCache calls compared with the BIP9 reference; distinct_nontrivial = distinct chains whose trajectory leaves DEFINED";
     E.assume("median time past is non-decreasing along a chain (consensus rule; GetStateFor's early exit depends on it)");
     E.sample("trajectories seen (configuration+states per period, D/S/L/A/F): " + std::to_string(g_trajectories.size()));
     std::string missing;
@@ -497,7 +496,7 @@ int Explore()
 
 int main(int argc, char** argv)
 {
-    vx::init(argc, argv, "C53", "model_checking");
+    vx::init(argc, argv, "C53", "exploration");
     if (!vx::ctx().replay.empty()) return Replay();
     return hb::guarded(Explore);
 }
